@@ -503,7 +503,9 @@ def run(ctx):
         ev12 = FD.Eval(node_hook=hook12)
         try:
             for st in seq:
-                if pvid in {y["referencedDecl"]["id"] for y in A.walk(st) if y.get("kind") == "DeclRefExpr"} or _inside10(st, pdecl):
+                writes_ = any(y.get("kind") in ("BinaryOperator", "CompoundAssignOperator", "UnaryOperator") and A.kids(y) and A.ref_id(A.kids(y)[0]) == pvid and
+                              (y.get("opcode", "").endswith("=") and y.get("opcode") not in ("==", "!=", "<=", ">=") or y.get("opcode") in ("++", "--")) for y in A.walk(st))
+                if writes_ or _inside10(st, pdecl):        # (assertions on the precision are not part of its bookkeeping)
                     ev12.run(st)
             val = ev12.env[pvid]
         except (FD.Unknown, KeyError) as e:
